@@ -355,4 +355,5 @@ func TestC03(t *testing.T) {
 		return c
 	}, c03Check)
 	rec.Extra("lz4_bodies_rerouted_around_known_finding", atomic.LoadInt64(&wire.Lz4Excluded))
+	rec.Extra("lz4_incompressible_bodies_sent_as_literals", atomic.LoadInt64(&wire.Lz4Incompressible))
 }
